@@ -418,6 +418,8 @@ pub struct BatchOut {
     pub hung_at: Option<u64>,
     /// workers that ended with a harness error of their own
     pub worker_errors: Vec<String>,
+    /// number of worker processes (run i was executed by worker i % workers)
+    pub workers: u64,
 }
 
 /// Runs `runs` seeded scenarios on worker processes. Run `i` depends only on
@@ -575,6 +577,7 @@ pub fn run_batch(engine_key: &str, tag: &str, seed: u64, runs: u64, tier: Tier, 
         wall: start.elapsed(),
         hung_at,
         worker_errors: worker_errors.into_inner().unwrap(),
+        workers: nw as u64,
     }
 }
 
@@ -619,6 +622,43 @@ pub struct ReplayFile {
     pub run: u64,
     pub violation: Violation,
     pub scenario: Value,
+    /// when the failure depends on what the same process executed before (state kept by the
+    /// library across calls): re-run the worker's whole index sequence up to `run`
+    #[serde(default)]
+    pub sequence: Option<Sequence>,
+}
+
+#[derive(Clone, Debug, Serialize, Deserialize)]
+pub struct Sequence {
+    pub tag: String,
+    pub tier: String,
+    pub offset: u64,
+    pub stride: u64,
+}
+
+/// Replays run indices offset, offset+stride, ... up to and including `upto` in this process and
+/// returns the first violation.
+pub fn run_sequence(e: &dyn DynEngine, seq: &Sequence, seed: u64, upto: u64) -> Option<(u64, Violation)> {
+    let tier = Tier::parse(&seq.tier).unwrap_or(Tier::Quick);
+    let out = e.run_range(&seq.tag, seed, tier, seq.offset, seq.stride, upto + 1, Duration::from_secs(3600), &mut |_| {});
+    out.violation.map(|(i, v, _)| (i, v))
+}
+
+pub fn write_sequence_replay(prop: &str, engine_key: &str, seed: u64, run: u64, v: &Violation, sc: &Value, seq: Sequence) -> String {
+    let dir = format!("{}/replay", verif_root());
+    let _ = std::fs::create_dir_all(&dir);
+    let path = format!("{dir}/{prop}-{}-{seed}-{run}-sequence.json", engine_key.replace(':', "_"));
+    let rf = ReplayFile {
+        property: prop.to_string(),
+        engine: engine_key.to_string(),
+        seed,
+        run,
+        violation: v.clone(),
+        scenario: sc.clone(),
+        sequence: Some(seq),
+    };
+    std::fs::write(&path, serde_json::to_string_pretty(&rf).unwrap()).expect("write replay file");
+    path
 }
 
 pub fn write_replay(prop: &str, engine_key: &str, seed: u64, run: u64, v: &Violation, sc: &Value) -> String {
@@ -632,6 +672,7 @@ pub fn write_replay(prop: &str, engine_key: &str, seed: u64, run: u64, v: &Viola
         run,
         violation: v.clone(),
         scenario: sc.clone(),
+        sequence: None,
     };
     std::fs::write(&path, serde_json::to_string_pretty(&rf).unwrap()).expect("write replay file");
     path
